@@ -35,6 +35,26 @@ func minimise(s *Scenario, test func(*Scenario) bool, maxTests int, deadline tim
 			c.Reader.Fault.At = k
 		}
 	}
+	// 0. the recorded history: drop prelude scenarios (chunked)
+	if len(cur.Prelude) > 0 {
+		c := cur.clone()
+		c.Prelude = nil
+		if !try(c) {
+			for chunk := (len(cur.Prelude) + 1) / 2; chunk >= 1 && tests < maxTests; chunk /= 2 {
+				for a := 0; a < len(cur.Prelude) && tests < maxTests; {
+					b := a + chunk
+					if b > len(cur.Prelude) {
+						b = len(cur.Prelude)
+					}
+					c := cur.clone()
+					c.Prelude = append(c.Prelude[:a], c.Prelude[b:]...)
+					if !try(c) {
+						a += chunk
+					}
+				}
+			}
+		}
+	}
 	// 1. ddmin on document bytes
 	shrinkDoc := func(get func(*Scenario) []byte, set func(*Scenario, []byte), adj bool) {
 		chunk := len(get(cur)) / 2
